@@ -127,6 +127,26 @@ CHECKS.update({
             "any Exception type counts as rejection", "DESIGN.md §4 C18"),
 })
 
+CHECKS.update({
+    "C07": ("exploration",
+            "bounded-exhaustive lattice (family/structure x n x random_state kind x seed triple) on the real samplers; "
+            "distribution-free DKW/Hoeffding bands at error probability 1e-12 per comparison",
+            "Univariate: 10 families x 3 parameter points x n up to 1e5 (1e6 thorough); joint: 2-D both structures x family "
+            "pairs, 3-D all 6 structures x 3 triples incl. von Mises and scalar-constant leaves: size/shape, reproducibility by "
+            "int seed and Generator, different seeds differ, each Rosenblatt component uniform (DKW), pairs independent "
+            "(3x3 Hoeffding).",
+            "finite-sample bands: a bias below the band at the largest n is invisible; explicit-parameter cdf path (C05)",
+            "DESIGN.md §4 C07"),
+    "C20": ("exploration",
+            "bounded-exhaustive lattice (contour class x semantics x path; plot option product; file sizes) on the real "
+            "export/plot/load functions; files parsed and matplotlib artists read back",
+            "save_contour_coordinates: path rule, header, row count, parsed values to 5e-7, order; plot_2D_contour: closed "
+            "polyline, swap, sample and design-condition scatters, return value; isodensity grid handed to Axes.contour = "
+            "model.pdf; dependence/histogram/marginal-quantile plots draw the model's values; dataset reader returns every "
+            "row with its time stamp.",
+            "matplotlib Agg; multi-region HDC save is a refusal", "DESIGN.md §4 C20"),
+})
+
 NOT_APPLICABLE = {
 }
 
